@@ -150,6 +150,17 @@ def magnitude_stream(ctx):
                     fails.append('in %s the total %r is not the sum %r of the totals of a split at %d' % (name, got, parts, k))
             except Exception as e:
                 fails.append('compute_flux on %s raised %r' % (name, e))
+        # the total asked for in a logarithmic unit: the magnitude of the summed flux density, not a sum of magnitudes
+        for name, unit in (('ABmag', u.ABmag), ('dex(Jy)', u.dex(u.Jy))):
+            try:
+                got = compute_flux(q, unit)
+                back = float(got.to(u.Jy).value)
+                if not str(got.unit) == str(unit):
+                    fails.append('%s Jy asked for in %s come back in %s' % (vals.tolist(), name, got.unit))
+                elif abs(back - want) > 1e-9 * want:
+                    fails.append('%s Jy asked for in %s: %r, which is %r Jy; the pixels sum to %r Jy' % (vals.tolist(), name, float(got.value), back, want))
+            except Exception as e:
+                fails.append('compute_flux(..., %s) raised %r' % (name, e))
         ctx.count('magnitude_cases')
         ctx.case_done(None, ('mag', it))
         if fails:
@@ -189,6 +200,30 @@ def statistic_flux_stream(ctx):
                 fails.append('%s pixels in units of %s: flux %r Jy, the pixel values sum to %r Jy' % (dt, dtext, got, want))
         except Exception as e:
             fails.append('flux raised %r' % (e,))
+        # the metadata dictionary edited in place between two reads: the flux follows, and an item that is taken away
+        # or given the wrong kind of unit is an error again
+        try:
+            with warnings.catch_warnings():
+                warnings.simplefilter('ignore')
+                mdd = {'data_unit': u.MJy / u.sr, 'spatial_scale': 2 * u.arcsec}
+                cls = PPVStatistic if ppv else PPStatistic
+                f1 = float(cls(ScalarStatistic(vals, idx), mdd).flux.to(u.Jy).value)
+                mdd['spatial_scale'] = 4 * u.arcsec
+                f2 = float(cls(ScalarStatistic(vals, idx), mdd).flux.to(u.Jy).value)
+                if abs(f2 - 4 * f1) > 1e-9 * abs(f1):
+                    fails.append('MJy/sr pixels: flux %r with spatial_scale 2 arcsec, %r after the same dictionary was given 4 arcsec (expected four times as much)' % (f1, f2))
+                for what, edit in (('spatial_scale removed', lambda m: m.pop('spatial_scale')),
+                                   ('spatial_scale = 3 m', lambda m: m.__setitem__('spatial_scale', 3 * u.m))):
+                    m2 = dict(mdd)
+                    cls(ScalarStatistic(vals, idx), m2).flux
+                    edit(m2)
+                    try:
+                        got2 = cls(ScalarStatistic(vals, idx), m2).flux
+                        fails.append('MJy/sr pixels, %s in the dictionary used a moment ago: flux %s instead of an error' % (what, got2))
+                    except Exception:
+                        pass
+        except Exception as e:
+            fails.append('edited metadata: raised %r' % (e,))
         ctx.count('statistic_flux=%s' % dt)
         ctx.case_done(None, ('statflux', it))
         if fails:
